@@ -43,6 +43,10 @@ def bSem (o : Obs) : Sem where
     | [.sym 4 _, .sym 2 _] => if f == N.ge then .ok (.bool o.cLeClen) .unit else .unknown
     | [.sym 2 _, .sym 5 _] => if f == N.ge then .ok (.bool o.cGeFirst) .unit else .unknown
     | [.sym 5 _, .sym 2 _] => if f == N.le then .ok (.bool o.cGeFirst) .unit else .unknown
+    | [.sym 1 (.nat n), .nat 0] => if f == N.gt || f == N.ne then .ok (.bool (!o.pZero)) .unit else if f == N.eq then .ok (.bool o.pZero) .unit else .unknown
+    | [.sym 1 (.nat n), .nat 1] =>
+      if f == N.sub then (if o.pZero then .panic else .ok (.sym 8 (.nat (n - 1))) .unit)
+      else if f == N.ge then .ok (.bool (!o.pZero)) .unit else .unknown
     | _ => .unknown
   meth := fun m recv args =>
     match recv, args with
